@@ -175,7 +175,7 @@ def pbkw_unit():
         hs += [Harness(f"unwrap_accepts_spec_{k}", ["C07", "C05"], complete=False, bound=b, functions=fn),
                Harness(f"roundtrip_{k}", ["C05"], complete=False, bound=b, functions=fn),
                Harness(f"unwrap_rejects_tamper_{k}", ["C06"], complete=False, bound=b + "; flip position/bit symbolic (blob, password)", functions=fn, timeout=1800),
-               Harness(f"unwrap_rejects_relabel_{k}", ["C06", "C10"], complete=False, bound=b + "; header relabelled local<->secret", functions=fn)]
+               Harness(f"unwrap_rejects_relabel_{k}", ["C06", "C10"], complete=False, bound=b + "; header relabelled local<->secret", functions=fn, timeout=2400)]
     for n in (0, 51, 52, 99, 100, 133):
         hs.append(Harness(f"unwrap_short_{n}", ["C04", "C06"], complete=False, bound=f"blob length {n}, all parameter blocks with a non-zero iteration count", functions=fn))
     hs += [Harness("unwrap_zero_iterations_h", ["C04"], complete=False, bound="132-byte blob, iteration count 0, everything else symbolic", functions=fn),
